@@ -66,6 +66,16 @@ def queries_ok(env, crop, B, F, per):
     return True
 
 
+EVALS = []
+BASE = [0]
+
+
+def counted_fn(a=0, b=0, c=0, k=0):
+    """the payload function of cropkit.mkfn, counting its evaluations"""
+    EVALS.append(1)
+    return BASE[0] + 10000 * a + 100 * b + c + 1000000 * k
+
+
 def body_step(E, B, per, f1, f2, f3, f4, fresh, op, i, s1, s2, s3, s4, base):
     B = concretize(B, 1, 4)
     per = concretize(per, 1, 2)
@@ -74,12 +84,10 @@ def body_step(E, B, per, f1, f2, f3, f4, fresh, op, i, s1, s2, s3, s4, base):
     op = concretize(op, 0, 9)
     i = concretize(i, 1, B)
     fin = [k + 1 for k, f in enumerate([f1, f2, f3, f4][:B]) if cbool(f)]
-    fn0 = mkfn(base)
-    evals = []
-
-    def fn(**kw):
-        evals.append(1)
-        return fn0(**kw)
+    evals = EVALS
+    del evals[:]
+    BASE[0] = base
+    fn = counted_fn         # module-level: pickled by reference, so the copy a grow loads from disk counts here too
 
     with E() as env:
         crop = build_state(env, fn, B, per, fin)
